@@ -117,8 +117,10 @@ def _inlinable(h):
     if any(d not in ("staticmethod",) for d in h.decorators):
         return False
     a = node.args
-    if a.vararg or a.kwarg or a.kwonlyargs or a.posonlyargs:
+    if a.kwarg or a.kwonlyargs or a.posonlyargs:
         return False
+    if a.vararg is not None and any(isinstance(n, ast.Name) and n.id == a.vararg.arg and not isinstance(n.ctx, ast.Load) for n in ast.walk(node)):
+        return False  # *args rebound in the body
     if any(isinstance(d, (ast.List, ast.Dict, ast.Set)) or (isinstance(d, ast.Call) and isinstance(d.func, ast.Name) and d.func.id in ("list", "dict", "set"))
            for d in a.defaults):
         return False  # a mutable default is one object shared by all calls: copying the body would hide that
@@ -477,9 +479,14 @@ class Inliner:
                     if not params or caller_self is None:
                         return c
                     hself, params = params[0], params[1:]
-                if any(isinstance(a, ast.Starred) for a in c.args) or c.keywords and any(k.arg is None for k in c.keywords) or len(c.args) > len(params):
+                va = h.node.args.vararg.arg if h.node.args.vararg is not None else None
+                if any(isinstance(a, ast.Starred) for a in c.args) or c.keywords and any(k.arg is None for k in c.keywords) or (
+                        len(c.args) > len(params) and va is None):
                     return c
                 bound = dict(zip(params, c.args))
+                if va is not None:
+                    # the extra positional arguments are what *args holds
+                    bound[va] = ast.Tuple(elts=list(c.args[len(params):]), ctx=ast.Load())
                 for k in c.keywords:
                     if k.arg not in params or k.arg in bound:
                         return c
@@ -498,7 +505,8 @@ class Inliner:
                         if not isinstance(n.ctx, ast.Load):
                             return c
                 for p_, a in bound.items():
-                    if not _pure_expr(a) and uses.get(p_, 0) > 1:
+                    pure = _pure_expr(a) or (isinstance(a, ast.Tuple) and all(_pure_expr(x) for x in a.elts))
+                    if not pure and uses.get(p_, 0) > 1:
                         return c
                 # names of the helper's expression that are neither parameters nor its self: globals / builtins, unchanged
                 rename = {hself: caller_self} if hself is not None and hself != caller_self else {}
@@ -609,11 +617,15 @@ class Inliner:
             hself = None
         if any(isinstance(a, ast.Starred) for a in call.args) or any(k.arg is None for k in call.keywords):
             return None
-        if len(call.args) > len(params):
+        va = hn.args.vararg.arg if hn.args.vararg is not None else None
+        if len(call.args) > len(params) and va is None:
             return None
         bound = {}
         for p, a in zip(params, call.args):
             bound[p] = a
+        if va is not None:
+            bound[va] = ast.Tuple(elts=list(call.args[len(params):]), ctx=ast.Load())
+            params = params + [va]
         for k in call.keywords:
             if k.arg not in params or k.arg in bound:
                 return None
@@ -968,6 +980,8 @@ def propagate_paths(func):
     params = set(func.params) | set(func.kwonly)
     n_repl = 0
     stmts_in_order = [s for s in _walk_no_defs(node) if isinstance(s, ast.stmt) and s is not node]
+    # textual order by position in the tree (statements made by the normalisation share line numbers)
+    order = {id(n): i for i, n in enumerate(_preorder(node))}
     for name, ds in sorted(defs.items()):
         if len(ds) != 1 or name in params or not isinstance(ds[0], ast.Assign) or not _is_path(ds[0].value):
             continue
@@ -993,14 +1007,14 @@ def propagate_paths(func):
         roots = _roots(d.value) | {name}
         # a loop around the definition re-executes it: fine.  A write to the path anywhere after the definition (or anywhere in
         # a loop enclosing a use) makes the copy differ from the path: give up on uses after such a write.
-        dline = (d.lineno, getattr(d, "col_offset", 0))
+        dline = order[id(d)]
         writers = [s for s in stmts_in_order if s is not d and inside(s, blk) and not any(inside(s, x) and x is not s for x in [d])
                    and (_writes(s) & roots) and not isinstance(s, (ast.If, ast.For, ast.While, ast.Try, ast.With, InlineBlock))]
         loops = []
         p = getattr(d, "_parent", None)
         ok_uses = []
         for u in uses:
-            upos = (u.lineno, u.col_offset)
+            upos = order.get(id(u), -1)
             if upos <= dline:
                 ok_uses = None
                 break
@@ -1008,7 +1022,7 @@ def propagate_paths(func):
             for w in writers:
                 if inside(u, w):
                     continue  # read on the right-hand side of the very statement that writes: evaluated before the store
-                wpos = (w.lineno, getattr(w, "col_offset", 0))
+                wpos = order[id(w)]
                 if dline < wpos < upos:
                     stale = True
                 # a writer later in a loop that contains both
@@ -1662,8 +1676,8 @@ def unroll_tables(func_node):
     def quantifier(e):
         """(kind, elt, pairs per element, ifs) for all(<genexpr over a literal>) / any(...)"""
         if not (isinstance(e, ast.Call) and isinstance(e.func, ast.Name) and e.func.id in ("all", "any") and len(e.args) == 1
-                and not e.keywords and isinstance(e.args[0], (ast.GeneratorExp, ast.ListComp)) and len(e.args[0].generators) == 1):
-            return None
+                and not e.keywords and isinstance(e.args[0], ast.GeneratorExp) and len(e.args[0].generators) == 1):
+            return None  # (a LIST comprehension is built completely before all()/any() looks at it: no short-circuit, left as written)
         if nb.get(e.func.id, 0):
             return None
         g = e.args[0].generators[0]
@@ -1723,7 +1737,7 @@ def unroll_tables(func_node):
            return any(C for T in IT)           ->  for T in IT: if C: return True; return False      (all: `if not C: return False`)"""
         def gen_of(e, fn, nargs):
             if isinstance(e, ast.Call) and isinstance(e.func, ast.Name) and e.func.id == fn and not nb.get(fn, 0) and not e.keywords \
-                    and len(e.args) in nargs and isinstance(e.args[0], (ast.GeneratorExp, ast.ListComp)) and len(e.args[0].generators) == 1 \
+                    and len(e.args) in nargs and isinstance(e.args[0], ast.GeneratorExp) and len(e.args[0].generators) == 1 \
                     and not e.args[0].generators[0].is_async and elements(e.args[0].generators[0].iter) is None:
                 g = e.args[0].generators[0]
                 tn = {n.id for n in ast.walk(g.target) if isinstance(n, ast.Name)}
@@ -2211,6 +2225,48 @@ def thread_joins(func_node):
     if count[0]:
         relink(func_node, getattr(func_node, "_parent", None))
     func_node.body = block(func_node.body, fold)
+    if count[0]:
+        relink(func_node, getattr(func_node, "_parent", None))
+    return count[0]
+
+
+def order_lines(func_node):
+    """Statements written by the normalisation carry the line of the statement they came from.  Give consecutive statements that
+    share a line strictly increasing (fractional) numbers, in tree order, so that rules ordering statements by line keep working;
+    reports print the integer part."""
+    last = None
+    for st in _preorder(func_node):
+        if not isinstance(st, ast.stmt) or st is func_node or not hasattr(st, "lineno"):
+            continue
+        ln = st.lineno
+        if last is not None and ln <= last and int(ln) == int(last):
+            new = last + 1e-4
+            for n in ast.walk(st):
+                if hasattr(n, "lineno") and n.lineno == ln:
+                    n.lineno = new
+                    if hasattr(n, "end_lineno") and getattr(n, "end_lineno", None) is not None and n.end_lineno < new:
+                        n.end_lineno = new
+            ln = new
+        last = ln
+
+
+def fold_constants(func_node):
+    """`"a" + "b"` -> `"ab"`, `(x,) + (y,)` -> `(x, y)` (what is left after parameters were replaced by literal arguments)."""
+    count = [0]
+
+    class T(ast.NodeTransformer):
+        def visit_BinOp(self, b):
+            self.generic_visit(b)
+            if isinstance(b.op, ast.Add):
+                l, r = b.left, b.right
+                if isinstance(l, ast.Constant) and isinstance(r, ast.Constant) and type(l.value) is type(r.value) and isinstance(l.value, (str, bytes)):
+                    count[0] += 1
+                    return ast.copy_location(ast.Constant(value=l.value + r.value), b)
+                if isinstance(l, ast.Tuple) and isinstance(r, ast.Tuple) and not any(isinstance(x, ast.Starred) for x in l.elts + r.elts):
+                    count[0] += 1
+                    return ast.copy_location(ast.Tuple(elts=l.elts + r.elts, ctx=ast.Load()), b)
+            return b
+    T().visit(func_node)
     if count[0]:
         relink(func_node, getattr(func_node, "_parent", None))
     return count[0]
